@@ -51,6 +51,13 @@ theorem C03_order_every_subset (keep : Check RevId → Bool) (relax : Bool) (v :
     allowedAll (evalSubset keep relax ⟨.baseline, v⟩ p) = true :=
   PSA.C03_order_subset _ C03_tables_ok relax keep v p hv ((apiValid_tables _ C03_windows_name p).mp hp) h
 
+/-- keeping every check is the shipped evaluator: `C03_order_every_subset` contains `C03_order_any_switch` -/
+theorem C03_subset_all (relax : Bool) (lv : LevelVersion) (p : Pod) :
+    allowedAll (evalSubset (fun _ => true) relax lv p) = (aggregate (evalPodModel Generated.tables relax lv p)).allowed := by
+  rw [evalPodModel_allowed]
+  have h : shipped.filter (fun _ => true) = shipped := List.filter_eq_self.mpr (fun _ _ => rfl)
+  simp only [evalSubset, evalShipped, h]
+
 /-- the edges that argument rests on are all the override edges there are (re-derived from the regenerated metadata) -/
 theorem C03_edges_complete : ∀ V, V ≤ 32 → edgesOK V = true := shipped_edgesOK
 
@@ -90,5 +97,6 @@ example :
 #print axioms C03_relaxing_level
 #print axioms C03_order_every_subset
 #print axioms C03_edges_complete
+#print axioms C03_subset_all
 #print axioms C03_privileged
 end PSA.Props
